@@ -430,11 +430,17 @@ func (x *Extractor) cacheGet(key extractorKey) (any, bool) {
 func (x *Extractor) cacheStoreOrLoad(refs []Reference, tp reflect.Type, res any) any {
 	x.mu.Lock()
 	defer x.mu.Unlock()
-	if v, ok := x.cache[extractorKey{ref: refs[0], tp: tp}]; ok {
-		return v
+	for _, ref := range refs {
+		if v, ok := x.cache[extractorKey{ref: ref, tp: tp}]; ok {
+			res = v
+			break
+		}
 	}
 	for _, ref := range refs {
-		x.cache[extractorKey{ref: ref, tp: tp}] = res
+		key := extractorKey{ref: ref, tp: tp}
+		if _, ok := x.cache[key]; !ok {
+			x.cache[key] = res
+		}
 	}
 	return res
 }
